@@ -86,6 +86,8 @@ EntriesInUnitInterval == phase = "done" => \A i, j \in Cells : 0 <= cnt[i][j] /\
 DetailedBalance == phase = "done" => \A i, j \in Cells : cnt[i][j] = cnt[j][i]   \* r_i T_ij = r_j T_ji
 VisitedRowsSumToOne == phase = "done" => \A i \in Cells : RowSum(i) = RowTotal(x, tau, noncorr, M, i)
 ReversalInvariant == (phase = "done" /\ ~noncorr) => cnt = SymMatrix(Reverse(x), tau, noncorr, M)
+(* growth (DESIGN §5, workflow run_msm): the visit counts are stationary for T: sum_i r_i T_ij = r_j *)
+StationaryIsVisitCounts == phase = "done" => \A j \in Cells : MapThenSumSet(LAMBDA i : cnt[i][j], Cells) = RowSum(j)
 DefinitionsAgree == phase = "loop" /\ k = 0 => SymMatrixIsSym(x, tau, noncorr, M)
 ShortTrajectoryIsZero == (phase = "done" /\ Len(x) <= tau) => cnt = Sym0
 =============================================================================
